@@ -91,6 +91,13 @@ const ZERO_SIZED: &[(&str, &str, &[usize], usize)] = &[
     ("for over empty array", "pub fn main(x: [u8; 0], y: u8) -> u8 {\n  let mut s = y;\n  for e in x {\n    s = s + e;\n  }\n  s\n}\n", &[0, 8], 8),
     ("unit param between", "pub fn main(a: u8, n: (), b: u8) -> u8 {\n  a ^ b\n}\n", &[8, 0, 8], 8),
     ("two leading zero-sized params", "pub fn main(x: (), z: [u8; 0], b: u8) -> u8 {\n  b\n}\n", &[0, 0, 8], 8),
+    ("join a wider n2m1", "pub fn main(a: [(u8, u16); 2], b: [(u8, u8); 1]) -> [(bool, (u8, u16), (u8, u8)); 2] {\n  join(a, b)\n}\n", &[48, 16], 82),
+    ("join a wider n1m2", "pub fn main(a: [(u8, u16); 1], b: [(u8, u8); 2]) -> [(bool, (u8, u16), (u8, u8)); 2] {\n  join(a, b)\n}\n", &[24, 32], 82),
+    ("join a wider n3m2", "pub fn main(a: [(u8, u16, bool); 3], b: [(u8, u8); 2]) -> [(bool, (u8, u16, bool), (u8, u8)); 4] {\n  join(a, b)\n}\n", &[75, 32], 168),
+    ("join b wider n2m3", "pub fn main(a: [(u8, bool); 2], b: [(u8, u64); 3]) -> [(bool, (u8, bool), (u8, u64)); 4] {\n  join(a, b)\n}\n", &[18, 216], 328),
+    ("join keys only n3m3", "pub fn main(a: [u16; 3], b: [u16; 3]) -> [(bool, u16); 5] {\n  join(a, b)\n}\n", &[48, 48], 85),
+    ("join_iter a wider n3m2", "pub fn main(a: [(u8, u32); 3], b: [(u8, u8); 2]) -> u32 {\n  let mut s = 0u32;\n  for ((_, x), (_, y)) in join_iter(a, b) {\n    s = s ^ x ^ (y as u32);\n  }\n  s\n}\n", &[120, 32], 32),
+    ("join_iter b wider n1m4", "pub fn main(a: [(u8, bool); 1], b: [(u8, u32); 4]) -> u32 {\n  let mut s = 0u32;\n  for ((_, x), (_, y)) in join_iter(a, b) {\n    if x {\n      s = s ^ y;\n    }\n  }\n  s\n}\n", &[9, 160], 32),
     ("single array param 3", "pub fn main(x: [u16; 3]) -> u16 {\n  x[0]\n}\n", &[16, 16, 16], 16),
     ("single array of arrays", "pub fn main(x: [[u8; 2]; 2]) -> u8 {\n  x[1][0]\n}\n", &[16, 16], 8),
 ];
